@@ -15,6 +15,14 @@ import (
 
 func init() {
 	register(&PropertyCheck{ID: "C01", Level: "other", Run: checkC01, Canaries: []Canary{
+		{Name: "user-property-value-before-key-on-both-sides", Rule: "R1.4", Where: "UserProp", Edits: []Edit{
+			{"wiretypes.go", "\ti += wstring(v[0]).fill(data, i)\n\t_ = wstring(v[1]).fill(data, i)", "\ti += wstring(v[1]).fill(data, i)\n\t_ = wstring(v[0]).fill(data, i)"},
+			{"wiretypes.go", "\tv[0] = string(key)\n\n\ti := len(v[0]) + 2", "\tv[1] = string(key)\n\n\ti := len(v[1]) + 2"},
+			{"wiretypes.go", "\tv[1] = string(val)\n\treturn nil", "\tv[0] = string(val)\n\treturn nil"}}},
+		{Name: "empty-valued-user-property-dropped", Rule: "R1.2", Where: "Auth", Edits: []Edit{{"wiretypes.go", "func (v UserProp) fillProp(data []byte, i int, id Ident) int {\n\tif len(v[0]) == 0 {", "func (v UserProp) fillProp(data []byte, i int, id Ident) int {\n\tif len(v[0]) == 0 || len(v[1]) == 0 {"}}},
+		{Name: "success-class-reason-codes-take-the-short-form", Rule: "R1.2", Where: "PubAck", Edits: []Edit{{"puback.go", "\tif p.reasonCode > 0 || propl > 0 {", "\tif p.reasonCode >= 0x80 || propl > 0 {"}}},
+		{Name: "nil-test-instead-of-length-test-in-property-encoder", Rule: "R1.5", Where: "Auth", Edits: []Edit{{"wiretypes.go", "func (v bindata) fillProp(data []byte, i int, id Ident) int {\n\tif len(v) == 0 {", "func (v bindata) fillProp(data []byte, i int, id Ident) int {\n\tif v == nil {"}}},
+		{Name: "empty-will-payload-not-written", Rule: "R1.1", Where: "Connect", Edits: []Edit{{"connect.go", "\t\ti += p.willPayload.fill(b, i)\n", "\t\tif len(p.willPayload) > 0 {\n\t\t\ti += p.willPayload.fill(b, i)\n\t\t}\n"}}},
 		{Name: "dispatch-starts-from-constructor-defaults", Rule: "R1.1", Where: "Connect", Edits: []Edit{{"packet.go", "\t\tp = &Connect{fixed: f.fixed}", "\t\tq := NewConnect()\n\t\tq.fixed = f.fixed\n\t\tp = q"}}},
 		{Name: "keepalive-dropped-both-sides", Rule: "R1.3", Where: "ConnAck", Edits: []Edit{
 			{"connack.go", "\ti += p.serverKeepAlive.fillProp(b, i, ServerKeepAlive)\n", ""},
@@ -137,6 +145,9 @@ func checkC01(p *Prog, c *Check) {
 			var wp *packetState
 			if spec.will == 1 {
 				wp = will
+			}
+			if spec.will == 3 {
+				wp, _ = p.willFor(spec)
 			}
 			st, why := p.buildStateSpec(tn, spec, nil, wp)
 			if st == nil {
@@ -666,6 +677,33 @@ func (p *Prog) checkCodecPairing(c *Check) {
 						why = "the value is not provably read from offset 2+len(key): " + o.Detail
 						break
 					}
+				}
+			}
+			if why == "" {
+				// encoder: element 0 (the key) is emitted first, element 1 (the value) second — the order the
+				// specification fixes (a swap made on both sides would round-trip and still be wrong on the wire)
+				_, _, eems, _ := emissionsOf(p, enc)
+				var order []int64
+				for _, em := range eems {
+					if len(em.call.Call.Args) == 0 {
+						continue
+					}
+					v := stripConvs(em.call.Call.Args[0])
+					if ix, ok := v.(*ssa.Index); ok && ix.X == ssa.Value(enc.Params[0]) {
+						if k, isC := constInt(ix.Index); isC {
+							order = append(order, k)
+						}
+					}
+					if ld, ok := v.(*ssa.UnOp); ok && ld.Op == token.MUL {
+						if ia, ok := ld.X.(*ssa.IndexAddr); ok {
+							if k, isC := constInt(ia.Index); isC {
+								order = append(order, k)
+							}
+						}
+					}
+				}
+				if len(order) != 2 || order[0] != 0 || order[1] != 1 {
+					why = fmt.Sprintf("the encoder does not emit element 0 (key) and then element 1 (value): emission order %v", order)
 				}
 			}
 			if why == "" {
